@@ -84,6 +84,23 @@ Proof.
       rewrite E, !app_length in Hn. destruct r; [congruence|]. cbn [length] in Hn. lia.
 Qed.
 
+Lemma runs_decompose {A} (p : A -> bool) junk r rest :
+  forallb (fun x => negb (p x)) junk = true -> r <> [] -> forallb p r = true ->
+  match rest with [] => True | y :: _ => p y = false end ->
+  runs p (junk ++ r ++ rest) = r :: runs p rest.
+Proof.
+  intros J Rn R T. rewrite runs_junk_prefix by exact J. destruct rest as [|y rest'].
+  - rewrite app_nil_r, runs_all by exact R. destruct r; [congruence | reflexivity].
+  - rewrite runs_app_sep by assumption. cbn [runs]. rewrite T. destruct r; [congruence | reflexivity].
+Qed.
+(* ... and the declarative description determines the result: the specification is unambiguous *)
+Theorem runs_unique {A} (p : A -> bool) l rs : runs_of p l rs -> rs = runs p l.
+Proof.
+  induction 1 as [junk J | junk r rest rs J Rn R T _ IH].
+  - symmetry. now apply runs_app_junk_nil.
+  - rewrite runs_decompose by assumption. now f_equal.
+Qed.
+
 (* ------------------------------------------------------------------ the loop of from_dna_only_string *)
 Lemma ascii_valid_lt128 c : ascii_valid c = true -> c < 128.
 Proof.
